@@ -365,19 +365,8 @@ def inner_limits(run, ctx):
         return
     n = 0
     for fld, meth in (("delegate_size_limit", "nfa_size_limit"), ("delegate_dfa_size_limit", "dfa_size_limit")):
-        calls = [nd for nd in H.walk(ci["body"]) if nd.get("k") == "MethodCall" and nd["name"] == meth]
         n += 1
-        ok = len(calls) == 1
-        if ok:
-            arg = H.canon(calls[0]["args"][0])
-            # must be Some(<value bound from the option>) under `if let Some(v) = options.<fld>`
-            m = H.pat_match("Some({v})", arg)
-            guarded = False
-            if m:
-                for nd in H.walk(ci["body"]):
-                    if nd.get("k") == "If" and H.pat_match("let Some(%s) = {o}.%s" % (m.group("v"), fld), H.canon(nd["cond"])) and any(x is calls[0] for x in H.walk(nd["then"])):
-                        guarded = True
-            ok = bool(m) and guarded
+        ok, _why = S.option_forwarding(ci, fld, meth)
         if not ok:
             run.violation(fam, label, fld, H.where(ci), "compile_inner must call %s only with Some(limit) when the user set %s: passing None removes regex-automata's default size limit, so a pattern like \\w{600} builds an unbounded automaton instead of failing" % (meth, fld))
     # nothing else about the inner engine is configured, anywhere: which captures it tracks, its match kind, its
